@@ -140,8 +140,9 @@ theorem gen_sigs_ok : Gen.sigs.all nativeSigOK = true := by decide
 
 /-- **builtins_classified** (fail closed). Every builtin registered in functions.go as it is now (names extracted
 from the source) and every name with a signature in the linked package is either defined by the model and the
-reference themselves (`Lib.nativeFns`), or explicitly an external library call (`Lib.oracleFns`: transcendental
-math, regex, time-zone, float/duration parsing and formatting, rune-set and Unicode string functions,
+reference themselves (`Lib.nativeFns`, the rune-set string functions `strTrim strTrimLeft strTrimRight strContainsAny
+strIndexAny strLastIndexAny` included), or explicitly an external library call (`Lib.oracleFns`: transcendental and
+rounding math, regex, time-zone, float/duration parsing and formatting, Unicode case mapping and white space,
 `humanBytes`), or explicitly outside the model (`rand`, `now`). A builtin added to functions.go breaks this theorem
 instead of being silently answered by the oracle; a name in none of the lists evaluates to an error in the model. -/
 theorem builtins_classified :
